@@ -37,6 +37,10 @@ pub struct ServerCase {
     /// held by the application, answer afterwards; 2: as 1, with a second pipelined request of
     /// the same connection still queued at the time of the drop
     pub drop_mode: u8,
+    /// handlers wait on their requests: nobody answers before as many requests as there are
+    /// application threads (or all of the burst) are held at the same time
+    #[serde(default)]
+    pub hold: bool,
     pub tape: Vec<u8>,
 }
 
@@ -54,7 +58,9 @@ pub fn server_strategy(max_burst: usize, for_c20: bool) -> BoxedStrategy<ServerC
             // light traffic after a big burst (C20 only): 4-6 single connections 2 s apart
             let big = bursts.iter().any(|b| *b >= 9);
             let trickle = if for_c20 && big && idle_ms > 0 && tape.len() % 2 == 0 { 4 + tape.len() % 3 } else { 0 };
-            ServerCase { bursts, reqs_per_conn, handlers, apis, stalled: if idle_ms > 0 { 0 } else { stalled }, trickle, idle_ms, drop_mode, tape }
+            // (C08/C07) every other case: the handlers hold their requests until all of them have one
+            let hold = !for_c20 && tape.len() % 2 == 1;
+            ServerCase { bursts, reqs_per_conn, handlers, apis, stalled: if idle_ms > 0 { 0 } else { stalled }, trickle, idle_ms, drop_mode, hold, tape }
         })
         .boxed()
 }
@@ -120,13 +126,24 @@ pub fn run_server_case(prop: &'static str, case: &ServerCase) -> Verdict {
         let stop = Arc::new(AtomicBool::new(false));
         let hdone = Arc::new(Gate { st: rt::sync::Mutex::new(GateSt::default()), cv: rt::sync::Condvar::new() });
         let mut handlers = vec![];
+        let held = Arc::new((rt::sync::Mutex::new(0usize), rt::sync::Condvar::new()));
+        let hold_target = Arc::new(AtomicUsize::new(0));
         for hi in 0..c.handlers {
             let s = server.clone();
+            let (held, hold_target, hold) = (held.clone(), hold_target.clone(), c.hold);
             let api = if c.apis.is_empty() { 0 } else { c.apis[hi % c.apis.len()] };
             let stop = stop.clone();
             let hdone = hdone.clone();
             handlers.push(shuttle::thread::spawn(move || {
                 let answer = |rq: tiny_http::Request| {
+                    if hold {
+                        let mut d = held.0.lock().unwrap();
+                        *d += 1;
+                        held.1.notify_all();
+                        while *d < hold_target.load(Ordering::SeqCst) {
+                            d = held.1.wait(d).unwrap();
+                        }
+                    }
                     let rid = rq.url().trim_start_matches("/r").to_string();
                     let resp = Response::from_string("ok").with_header(tiny_http::Header::from_bytes(&b"X-Rid"[..], rid.as_bytes()).unwrap());
                     let _ = rq.respond(resp);
@@ -191,6 +208,8 @@ pub fn run_server_case(prop: &'static str, case: &ServerCase) -> Verdict {
         let mut next_id = 0usize;
         for (bi, b) in c.bursts.iter().copied().enumerate() {
             ph.store(10 + bi, Ordering::SeqCst);
+            // (all requests of the earlier bursts have been delivered and answered by now)
+            hold_target.store(next_id + c.handlers.min(b * c.reqs_per_conn), Ordering::SeqCst);
             let gate = Arc::new(Gate { st: rt::sync::Mutex::new(GateSt::default()), cv: rt::sync::Condvar::new() });
             let mut clients = vec![];
             for _ in 0..b {
@@ -297,6 +316,7 @@ pub fn run_server_case(prop: &'static str, case: &ServerCase) -> Verdict {
             }
         }
         ph.store(30, Ordering::SeqCst);
+        hold_target.store(0, Ordering::SeqCst);
         // release the application threads: each unblock() releases exactly one receive call
         stop.store(true, Ordering::SeqCst);
         loop {
@@ -415,6 +435,7 @@ pub fn run_server_case(prop: &'static str, case: &ServerCase) -> Verdict {
         .class(format!("drop-mode={}", case.drop_mode))
         .class_if(o.idle_checks > 0, "idle-phase-checked")
         .class_if(case.stalled > 0, "stalled-connections")
+        .class_if(case.hold, "handlers-hold-their-requests")
         .class_if(case.trickle > 0, "light-traffic-after-burst")
         .class_if(case.apis.iter().any(|a| *a != 0), "mixed-receive-apis")
         .class_if(o.lib_threads_spawned > 5, "extra-workers-spawned")
